@@ -63,16 +63,22 @@ class Builder:
         self.expected_ok = True  # program is legal with wide margins
 
     # -- primitive draws ---------------------------------------------------------------------
+    # All choices below come from one PRNG that is seeded with a single Hypothesis-drawn 64-bit integer
+    # (see build()): the program is a pure function of that integer.  Hypothesis' own integer / sampled_from
+    # distributions favour small values and the first elements of a list (measured: boundary operands such as
+    # "lw x8, 128(x9)" were produced 20x less often than designed), and programs are minimised by an own
+    # ddmin over IR items anyway, so nothing is lost by not letting Hypothesis shrink these choices.
     def i(self, lo, hi):
-        return self.draw(st.integers(lo, hi))
+        return self.rnd.randint(lo, hi)
 
     def chance(self, p):
         if p <= 0:
             return False
-        return self.i(0, 999) >= 1000 - int(p * 1000)
+        return self.rnd.random() < p
 
     def pick(self, seq):
-        return self.draw(st.sampled_from(list(seq)))
+        seq = list(seq)
+        return seq[self.rnd.randrange(len(seq))]
 
     def weighted(self, pairs):
         pairs = [(k, w) for k, w in pairs if w > 0]
@@ -652,11 +658,14 @@ class Builder:
         return [self.transfer(self.label())]
 
     def build(self):
+        import random
         p = self.p
+        self.seed = self.draw(st.integers(0, 2 ** 64 - 1))
+        self.rnd = random.Random(self.seed)
         nL = self.i(*p['n_labels'])
-        self.labels = self.draw(st.permutations(LABEL_NAMES))[:nL]
+        self.labels = self.rnd.sample(LABEL_NAMES, nL)
         nC = self.i(*p['n_consts'])
-        cnames = self.draw(st.permutations(CONST_NAMES))[:nC]
+        cnames = self.rnd.sample(CONST_NAMES, nC)
         for n in cnames:
             self.add_const(n)
         n_items = self.i(*p['n_items'])
